@@ -622,8 +622,19 @@ def global_effects(ctx, world, thread=False):
                 ctx.fail("A11.state", inst, f"singleton:{mod.name}.{name}", loc_of(mod, b[2]), f"module-level instance {name} of {cref.qual} is mutated by its methods ({sorted({a for _, a, _ in writes})})", "call history")
             if thread:
                 mro = [k.qual for k in class_mro(world.repo, cref)]
-                if "threading.local" in mro or "_thread._local" in mro:
-                    ctx.ob("A11.thread", inst, True, loc_of(mod, cref.node), sample="derives from threading.local")
+                slotted = _slots_of(world, cref)
+                written = {a for _, a, _ in writes}
+                if ("threading.local" in mro or "_thread._local" in mro) and (written & slotted):
+                    ctx.fail(
+                        "A11.thread",
+                        inst,
+                        f"thread-shared-slots:{mod.name}.{name}",
+                        loc_of(mod, cref.node),
+                        f"{cref.qual} derives from threading.local but declares __slots__ {sorted(written & slotted)}: slot attributes live in the (single, shared) object, not in the per-thread dictionary, so `{sorted(written & slotted)[0]}` is shared by all threads again",
+                        "two threads with overlapping traces, one of them nested",
+                    )
+                elif "threading.local" in mro or "_thread._local" in mro:
+                    ctx.ob("A11.thread", inst, True, loc_of(mod, cref.node), sample="derives from threading.local, no __slots__ on the written attributes")
                 else:
                     ctx.fail(
                         "A11.thread",
@@ -634,6 +645,21 @@ def global_effects(ctx, world, thread=False):
                         "two threads; thread A runs a nested differentiation; thread B's trace exits between A's outer entry and inner entry: A's inner trace gets the id of its outer trace",
                     )
     ctx.floor("A11 module-level singletons with mutating methods", n_single, 1)
+
+
+def _slots_of(world, cref):
+    out = set()
+    for k in class_mro(world.repo, cref):
+        if k.kind != "repo":
+            continue
+        for st in k.node.body:
+            if isinstance(st, ast.Assign) and any(isinstance(t, ast.Name) and t.id == "__slots__" for t in st.targets):
+                try:
+                    v = ast.literal_eval(st.value)
+                    out |= set([v] if isinstance(v, str) else v)
+                except Exception:
+                    out.add("*")
+    return out
 
 
 def _locals_of(fnode):
